@@ -80,6 +80,9 @@ TREES = {
     # scan order is breadth first: root file X, then two identical files Y of the same size in a sub-directory
     'dups-xyy': [('a1.bin', 'file', b'X' * 64), ('s', 'dir', None), ('s/b1.bin', 'file', b'Y' * 64), ('s/b2.bin', 'file', b'Y' * 64)],
     'dups-xyx': [('a1.bin', 'file', b'X' * 64), ('s', 'dir', None), ('s/b1.bin', 'file', b'Y' * 64), ('s/t', 'dir', None), ('s/t/c1.bin', 'file', b'X' * 64)],
+    # the duplicate scan hashes in 32 KiB chunks: same size, same last chunk, different first chunk; and true duplicates
+    'dups-big': [('fw_a.bin', 'file', b'A' * 32768 + b'T' * 32768), ('fw_b.bin', 'file', b'B' * 32768 + b'T' * 32768), ('fw_c.bin', 'file', b'A' * 32768 + b'T' * 32768),
+                 ('img_a.dat', 'file', b'X' * 40000), ('img_b.dat', 'file', b'Y' * 32768 + b'X' * 7232)],
     'long-symlinks': [('t', 'file', D(3))] + [('l%03d' % n, 'link', 'a' * n + '/bbbb/cc') for n in range(100, 141)],
     'empty-dirs': [('e1', 'dir', None), ('e1/e2', 'dir', None), ('f', 'file', b'')],
     'deep': [('/'.join('d%d' % i for i in range(1, k + 1)), 'dir', None) for k in range(1, 10)] + [('/'.join('d%d' % i for i in range(1, 10)) + '/leaf.txt', 'file', D(11))],
